@@ -412,6 +412,11 @@ func (r *runner) acctHasPriv(scope string, acct uint32) bool {
 // checkObj evaluates the C03 clauses on one returned address object (independent of the Lean model).
 func (r *runner) checkObj(h *handle, op string) []string {
 	var v []string
+	if m := r.accts[h.scope][h.acct]; h.chained && m != nil && m.gen > 0 {
+		// the account row was overwritten (reported once under newAccount.existing-account-overwritten);
+		// everything derived from it afterwards is a consequence, not a separate finding
+		return nil
+	}
 	add := func(key, msg string) { v = append(v, "C03 key="+key+": "+msg) }
 	pk, isKey := h.ma.(waddrmgr.ManagedPubKeyAddress)
 	if h.chained {
